@@ -28,6 +28,24 @@ tasks share the caller's cell.
 `for k in S: d[k] = f(k, d.get(k))` over a hash-ordered set `S` (fasta.py:98-101, 553-560): Python dicts
 keep insertion order, so the *content* of `d` does not depend on the enumeration of `S` but its *key
 order* does.  `dUpd`/`keyedLoop` model exactly that (update in place, new keys appended).
+
+## 3. The seed of the hyper-parameter search (second pass)
+
+`PercolatorModel.__init__` (model.py:430-436) draws the `random_state` of the grid search's `KFold` from the
+generator it is CONSTRUCTED with — before `brew` replaces the model's generator (`model.rng = rng`, brew.py:121).
+What reaches the fit of a fold is therefore the pair (that cross-validation seed, the row permutation of §1).
+With `model=None` `brew` builds `PercolatorModel(rng=rng)` on ITS OWN generator (brew.py:109-112, since the repair of
+D39): one `integers` draw precedes the fold shuffles on that path (`defaultModelDraws`, `mainDrawsOf`).  Before the
+repair it was `PercolatorModel()`: a generator seeded from OS entropy (refuted variant in Mutants/Determ.lean).
+
+## 4. The seed handed to `assign_confidence` (second pass)
+
+`assign_confidence(..., rng=R)` hands `R` unchanged to every collection's `LinearConfidence` (confidence.py:813,
+74, 372-379), `picked_protein` hands it to `group_without_decoys` → `match_decoy` (`targets.sample(frac=1,
+random_state=R)`, peptides.py:39; target-only FASTA only) and then to `utils.groupby_max` (`df.sample(frac=1,
+random_state=R)`, utils.py:33).  pandas turns an int into a NEW generator per call and uses a Generator object as it
+is: an int seed restarts every shuffle from the same state, a Generator is advanced shuffle after shuffle,
+collection after collection (`SeedArg`, `runSeeded`).
 -/
 namespace Mk.Determ
 
@@ -41,6 +59,8 @@ inductive Draw where
   | choice (n k : Nat)
   /-- `rng.permutation(np.arange(n))` (model.py:291) -/
   | permutation (n : Nat)
+  /-- `rng.integers(lo, hi)` (model.py:436: the seed of the grid search's `KFold`) -/
+  | integers (lo hi : Nat)
   deriving DecidableEq, Repr
 
 /-- an abstract bit generator: a draw returns a value and the next state -/
@@ -175,6 +195,7 @@ def drawCost : Draw → Nat
   | .shuffle n => 1 + n
   | .choice n k => 2 + n + k
   | .permutation n => 3 + n
+  | .integers lo hi => 4 + lo + hi
 
 /-- a toy generator for the driver and the refuted variants: the value is the state, every draw moves
 the state by a request-dependent amount -/
@@ -204,5 +225,82 @@ def keyedLoop (f : κ → Option α → α) (d : List (κ × α)) (ks : List κ)
 
 /-- the keys in dictionary order (`list(d.keys())`) -/
 def dKeys (d : List (κ × α)) : List κ := d.map Prod.fst
+
+/-! ## 3. The cross-validation seed of the model that `brew` trains -/
+
+variable {σ ν : Type}
+
+/-- src: mokapot/model.py:430-436 — `rng = np.random.default_rng(rng)` … `KFold(3, shuffle=True,
+random_state=rng.integers(1, 1e6))`: the constructor makes ONE draw on the generator it is given (state `m0`);
+the value seeds the cross-validation of the hyper-parameter search, the generator is left one draw further -/
+def percolatorInit (G : Gen σ ν) (m0 : σ) : ν × σ := G.step m0 (Draw.integers 1 1000000)
+
+/-- src: mokapot/brew.py:109-112 — where the model that `brew` trains comes from -/
+inductive ModelArg (σ : Type) where
+  /-- `model=None`: `brew` itself builds `PercolatorModel(rng=rng)` on its own generator -/
+  | default
+  /-- the caller built the model on a generator in state `m0` (`PercolatorModel(rng=seed)`, as the command line
+  entry point does, mokapot.py:110-116: `m0` is the state `default_rng(seed)` starts in) -/
+  | built (m0 : σ)
+
+/-- src: mokapot/brew.py:109-112, mokapot/model.py:430-436 — the seed of the grid search's cross-validation in the
+model that `brew` deep-copies for every fold; `s0` is the state `brew`'s own generator starts in (`entropy`, the
+state of a generator made without a seed, is not used by the code as it is; it is the parameter of the refuted
+variant) -/
+def modelCvSeed (G : Gen σ ν) (_entropy s0 : σ) : ModelArg σ → ν
+  | .default => (percolatorInit G s0).1
+  | .built m0 => (percolatorInit G m0).1
+
+/-- src: mokapot/brew.py:108-121 — the state in which `brew`'s generator makes its own first draw (the fold
+shuffles): with the default model the constructor's draw comes first -/
+def brewStart (G : Gen σ ν) (s0 : σ) : ModelArg σ → σ
+  | .default => (percolatorInit G s0).2
+  | .built _ => s0
+
+/-- src: mokapot/brew.py:109-112 — what building the default model draws from `brew`'s generator -/
+def defaultModelDraws : List Draw := [Draw.integers 1 1000000]
+
+/-- src: mokapot/brew.py:108-176 — everything `brew` itself draws from its generator, in order, also for
+`model=None` (`defaultModel`): the constructor's draw, then `mainDraws` -/
+def mainDrawsOf (defaultModel pretrained : Bool) (subsetMax : Option Nat) (foldSizes : List (List Nat)) : List Draw :=
+  (if defaultModel then defaultModelDraws else []) ++ mainDraws pretrained subsetMax foldSizes
+
+/-- src: mokapot/brew.py:108-186, mokapot/model.py:291, 618-650 — everything random that reaches the fit of fold `j`:
+the cross-validation seed baked into the model and the row permutation drawn from the fold's copy of `brew`'s generator -/
+def trainInputs (G : Gen σ ν) (entropy s0 : σ) (m : ModelArg σ) (subsetMax : Option Nat) (foldSizes : List (List Nat))
+    (sched : List Nat) (j : Nat) : ν × List ν :=
+  (modelCvSeed G entropy s0 m, (brewPool G (brewStart G s0 m) false subsetMax foldSizes sched).out j)
+
+/-! ## 4. The seed handed to `assign_confidence` -/
+
+/-- src: pandas `sample(random_state=…)` as called at mokapot/peptides.py:39 and mokapot/utils.py:33 — what the
+`rng` argument of `assign_confidence` is: an int (every `sample` call builds its own generator, in the state `init`
+that the int determines) or a Generator object (used as it is, and advanced) -/
+inductive SeedArg (σ : Type) where
+  | seed (init : σ)
+  | gen
+
+/-- one `sample(frac=1, random_state=R)`: the value drawn and the state the CALLER's generator is left in -/
+def seededStep (G : Gen σ ν) : SeedArg σ → σ → Draw → ν × σ
+  | .seed init, s, d => ((G.step init d).1, s)
+  | .gen, s, d => G.step s d
+
+/-- the shuffles of a confidence run, one after the other (`s` = state of the caller's generator) -/
+def runSeeded (G : Gen σ ν) (arg : SeedArg σ) : σ → List Draw → List ν × σ
+  | s, [] => ([], s)
+  | s, d :: ds => ((seededStep G arg s d).1 :: (runSeeded G arg (seededStep G arg s d).2 ds).1,
+                   (runSeeded G arg (seededStep G arg s d).2 ds).2)
+
+/-- src: mokapot/picked_protein.py:56-64, 200-208, 114; mokapot/peptides.py:39; mokapot/utils.py:29-39 — the shuffles
+of the protein level of ONE collection: with a target-only FASTA first `match_decoy` shuffles the `nTargets`
+unique target peptides of the FASTA, then `groupby_max` shuffles the `nRows` peptide rows that have a protein
+group (pandas: `random_state.choice(n, size=n, replace=False)`) -/
+def protDraws (hasDecoys : Bool) (nTargets nRows : Nat) : List Draw :=
+  (if hasDecoys then [] else [Draw.choice nTargets nTargets]) ++ [Draw.choice nRows nRows]
+
+/-- src: mokapot/confidence.py:643-819 — `for _psms, score, desc, prefix in zip(…)`: the collections one after the
+other, every one with the same `rng` argument (`rows[c]` = peptide rows with a protein group in collection `c`) -/
+def confDraws (hasDecoys : Bool) (nTargets : Nat) (rows : List Nat) : List Draw :=
+  rows.flatMap (protDraws hasDecoys nTargets)
 
 end Mk.Determ
